@@ -135,6 +135,28 @@ def long_enum_case(rng):
             "meta": {"kw": 2, "longenum": len(members)}}
 
 
+def anchored_literal_case(rng):
+    """patternProperties / pattern whose regular expression is a literal anchored on both sides (`^id$`, `^a b$`), against names / strings
+    that merely CONTAIN the literal (`idx`, `valid`, `grid`): only the exact name matches; what is matched decides what
+    additionalProperties / unevaluatedProperties still see."""
+    lit = rng.choice(["id", "a", "ab", "x", "name", "a b", "é", "0"])
+    near = [lit, "x" + lit, lit + "x", "x" + lit + "x", lit + lit, lit.upper(), ""]
+    pat = rng.choice(["^%s$", "^%s$", "^(%s)$", "^%s", "%s$", "%s"]) % lit
+    sub = rng.choice([Obj([("type", "number")]), False, Obj([("const", Num("1"))]), True])
+    closing = rng.choice([("additionalProperties", False), ("unevaluatedProperties", False), ("additionalProperties", Obj([("type", "string")])),
+                          ("unevaluatedProperties", Obj([("type", "null")]))])
+    form = rng.random()
+    if form < 0.7:
+        doc = Obj([("patternProperties", Obj([(pat, sub)])), closing])
+        if rng.random() < 0.3:
+            doc = Obj([("allOf", [Obj([("patternProperties", Obj([(pat, sub)]))])]), ("unevaluatedProperties", closing[1])])
+        insts = [Obj([(k, rng.choice([Num("1"), "s", None]))]) for k in near] + [Obj([(near[0], Num("1")), (near[3], Num("1"))])]
+    else:
+        doc = Obj([("pattern", pat)]) if rng.random() < 0.6 else Obj([("propertyNames", Obj([("pattern", pat)]))])
+        insts = list(near) if doc.get("pattern") is not None else [Obj([(k, None)]) for k in near]
+    return {"op": "validate", "args": {"schema": doc, "insts": insts}, "meta": {"kw": 3, "anchored": pat}}
+
+
 def gen(rng, tier, n):
     ops = suite.suite_ops("draft2020-12")
     depth = 3 if tier == "quick" else 4
@@ -167,6 +189,9 @@ def gen(rng, tier, n):
                               Obj([("uniqueItems", True), ("unevaluatedItems", False), ("prefixItems", [True, True, True])])])
             insts = [[x, y], [y, x], [x, "s", y], [x, x], [y], [x, Num("7"), y, None]]
             ops.append({"op": "validate", "args": {"schema": doc, "insts": insts}, "meta": {"kw": 2}})
+            continue
+        if 0.41 <= r < 0.435:
+            ops.append(anchored_literal_case(rng))
             continue
         if r < 0.41:
             # strings that spell numbers next to the numbers themselves, under the equality-deciding keywords; the instances arrive as
